@@ -84,8 +84,12 @@ fn root_view(y: &State, group: char) -> BTreeMap<(bool, char), (i64, u8)> {
 /// Repeated queries on one replica must agree (C31, second half). Returns the view or the two
 /// differing answers.
 fn stable_view(y: &State, group: char) -> Result<MView, (MView, MView)> {
+    stable_view_n(y, group, 4)
+}
+
+fn stable_view_n(y: &State, group: char, repeats: usize) -> Result<MView, (MView, MView)> {
     let first = members_view(y, group);
-    for _ in 0..4 {
+    for _ in 0..repeats {
         let again = members_view(y, group);
         if again != first {
             return Err((first, again));
@@ -228,6 +232,7 @@ struct Explorer<'a> {
     extensions: u64,
     failed: bool,
     stop_on_view_mismatch: bool,
+    queries: usize,
 }
 
 impl Explorer<'_> {
@@ -240,7 +245,8 @@ impl Explorer<'_> {
         key.sort();
         // --- observables of the replica that has processed exactly `key`
         if !key.is_empty() {
-            let real = match catch(|| stable_view(y, G)) {
+            let repeats = self.queries;
+            let real = match catch(|| stable_view_n(y, G, repeats)) {
                 Err(p) => {
                     viol(out, "C31", "query-panics", p, self.case.clone());
                     self.failed = true;
@@ -463,6 +469,9 @@ fn replay(args: &Args) {
     // accepted-attempt tables by canonical history key (for views smaller than the whole history)
     let mut tables: HashMap<String, BTreeSet<(char, String, char, i64, u64)>> = HashMap::new();
     let mut recreate_reported = false;
+    let fresh = args.extra_usize("fresh", 0);
+    let queries = args.extra_usize("queries", 4);
+    let mut fresh_rng = Rng::new(args.seed ^ 0x5eed);
     // nesting cases (spec/GroupAuth/GroupNest.tla) are a different kind of behaviour
     let (nestings, cases): (Vec<Value>, Vec<Value>) = cases.into_iter().partition(|b| b["kind"] == "nesting");
     let mut nest_rng = Rng::new(args.seed);
@@ -479,7 +488,7 @@ fn replay(args: &Args) {
     for (n, (b, h)) in cases.iter().zip(parsed.iter()).enumerate() {
         out.eval();
         let accepted: Vec<u32> = h.ops.iter().filter(|(_, ok)| *ok).map(|(o, _)| o.id).collect();
-        let mut ex = Explorer { h, case: b, accepted: accepted.clone(), seen: HashMap::new(), leaves: Vec::new(), process_calls: 0, extensions: 0, failed: false, stop_on_view_mismatch: focus_c31 };
+        let mut ex = Explorer { h, case: b, accepted: accepted.clone(), seen: HashMap::new(), leaves: Vec::new(), process_calls: 0, extensions: 0, failed: false, stop_on_view_mismatch: focus_c31, queries: args.extra_usize("queries", 4) };
         let init = Crdt::init();
         ex.explore(&init, &mut Vec::new(), &mut out);
         out.count_by("process_calls", ex.process_calls);
@@ -489,6 +498,41 @@ fn replay(args: &Args) {
         }
         if ex.failed {
             continue;
+        }
+        // --- `--fresh N`: N more replicas built from scratch, each in its own random causal order (the walk
+        // above shares prefixes between orders; a fresh replica rebuilds everything with its own hash seeds)
+        let full_key = { let mut a = accepted.clone(); a.sort(); a };
+        for _ in 0..fresh {
+            let mut y = Crdt::init();
+            let mut done: Vec<u32> = Vec::new();
+            let mut bad = false;
+            while done.len() < accepted.len() && !bad {
+                let ready: Vec<u32> = accepted.iter().copied().filter(|id| !done.contains(id) && h.ops[*id as usize - 1].0.deps.iter().all(|d| done.contains(d))).collect();
+                let id = *fresh_rng.pick(&ready);
+                match process(&y, &h.ops[id as usize - 1].0) {
+                    Ok(Ok(next)) => { y = next; done.push(id); }
+                    Ok(Err(e)) => { viol(&mut out, "C33", "valid-operation-rejected", format!("op {id} refused after {done:?}: {e}"), b.clone()); bad = true; }
+                    Err(p) => { viol(&mut out, "C33", "process-panics", p, b.clone()); bad = true; }
+                }
+            }
+            if bad { break; }
+            out.count("fresh_replicas");
+            match catch(|| stable_view_n(&y, G, queries)) {
+                Err(p) => viol(&mut out, "C31", "query-panics", p, b.clone()),
+                Ok(Err((v1, v2))) => viol(&mut out, "C31", "query-unstable", format!("fresh replica (order {done:?}): repeated members() gave {v1:?} then {v2:?}"), b.clone()),
+                Ok(Ok(v)) => {
+                    if let Some(spec) = h.views.get(&full_key) {
+                        if spec != &v {
+                            viol(&mut out, "C31", "view-differs-from-spec", format!("fresh replica (order {done:?}) reports {v:?}, specification says {spec:?}"), b.clone());
+                        }
+                    }
+                    if let Some(other) = ex.seen.get(&full_key) {
+                        if other != &v {
+                            viol(&mut out, "C31", "replicas-diverge", format!("fresh replica (order {done:?}) reports {v:?}, another replica with the same operations {other:?}"), b.clone());
+                        }
+                    }
+                }
+            }
         }
         // --- operations the specification refuses: every replica that has the dependencies refuses them too
         for (op, ok) in &h.ops {
